@@ -63,6 +63,13 @@ theorem reach_inv {cap quota : Nat} {cfg : List (Nat × Nat × Nat)} (hcfg : Val
       obtain ⟨a, b, _, _, _⟩ := Inv_iterL ih.1 c h1 h2 h3 h4 h5
       exact ⟨a, ih.2.trans b⟩
 
+/-- What the driver `pv_C14` checks on every `test` line of a real trace (`passOkB` on the located indices) and on
+    every `inst` line (the request is new) is exactly the admissibility the theorems assume. -/
+theorem C14_acceptor_sound (s : St) (c : List (Loc × List Dyn)) (h : passOkB s (c.map (·.1)) = true)
+    (hfn : (c.flatMap (·.2)).Nodup) (hf : ∀ x, x ∈ c.flatMap (·.2) → x ∉ s.issued) : (Move.pass c).admissible s := by
+  obtain ⟨a, b, d⟩ := passOkB_sound h
+  exact ⟨a, b, d, hfn, hf⟩
+
 /-! ## C14_slots — the slot invariant -/
 
 /-- **Slot invariant.**  In every reachable state (between two passes of the progress loop):
